@@ -193,6 +193,13 @@ func (ev *SpecEval) ident(name string) SVal {
 	case "nil":
 		return SVal{V: TNil, T: types.Typ[types.UntypedNil]}
 	}
+	// map iteration ghosts of the current frame: $mtok = order token of the map range, $mi = index of the last key handed out
+	if ev.fr != nil && (name == "$mtok" || name == "$mi") {
+		if t := ev.fr.mapIterGhost(name, ev.cur); t != nil {
+			return SVal{V: t, T: intT}
+		}
+		ev.fail("%s: no string-keyed map range executed in %s", name, ev.fr.fn)
+	}
 	// loop-carried variable of the current frame
 	if ev.fr != nil && (strings.HasPrefix(name, "#") || strings.HasPrefix(name, "$")) {
 		if v, t, ok := ev.fr.lookupSSAName(name); ok {
@@ -244,6 +251,23 @@ func (fr *Frame) lookupSSAName(name string) (Value, types.Type, bool) {
 	if name == "$ri" {
 		want = "rangeindex"
 	}
+	if name == "$ri2" {
+		// the range index of the loop that encloses the innermost cut loop
+		if fr.curLoopHead == nil || fr.loops == nil {
+			return nil, nil, false
+		}
+		l := fr.loops.ByHead[fr.curLoopHead]
+		for l = l.Parent; l != nil; l = l.Parent {
+			for _, ins := range l.Head.Instrs {
+				if phi, ok := ins.(*ssa.Phi); ok && phi.Comment == "rangeindex" {
+					if v, have := fr.env[phi]; have {
+						return v, phi.Type(), true
+					}
+				}
+			}
+		}
+		return nil, nil, false
+	}
 	var best *ssa.Phi
 	for v := range fr.env {
 		phi, ok := v.(*ssa.Phi)
@@ -284,6 +308,39 @@ func (fr *Frame) lookupSSAName(name string) (Value, types.Type, bool) {
 		}
 	}
 	return nil, nil, false
+}
+
+// mapIterGhost finds the map range of this frame's function whose ghosts are present in st; when the innermost cut loop
+// advances one (its Next is in that loop) that one is preferred, otherwise the last in block order
+func (fr *Frame) mapIterGhost(name string, st *State) *Term {
+	var best *ssa.Range
+	inCur := false
+	for _, b := range fr.fn.Blocks {
+		for _, ins := range b.Instrs {
+			nx, ok := ins.(*ssa.Next)
+			if !ok {
+				continue
+			}
+			r := nx.Iter.(*ssa.Range)
+			if _, have := st.Ghost["$mtok:"+rangeID(r)]; !have {
+				continue
+			}
+			cur := false
+			if fr.curLoopHead != nil && fr.loops != nil {
+				if l := fr.loops.ByHead[fr.curLoopHead]; l != nil && l.Blocks[b] {
+					cur = true
+				}
+			}
+			if best == nil || cur || !inCur {
+				best = r
+				inCur = inCur || cur
+			}
+		}
+	}
+	if best == nil {
+		return nil
+	}
+	return st.Ghost[name+":"+rangeID(best)]
 }
 
 func (ev *SpecEval) binary(e *SExpr) SVal {
@@ -415,6 +472,16 @@ func (ev *SpecEval) callSpec(e *SExpr) SVal {
 		return SVal{V: Le(IntLit(1), RootID(v)), T: boolT}
 	case "rootid":
 		return SVal{V: RootID(ev.term(e.Args[0])), T: intT}
+	case "iterlen": // iterlen(tok): number of keys a map range visits
+		return SVal{V: App("iterlen", SInt, ev.term(e.Args[0])), T: intT}
+	case "mapkeyat": // mapkeyat(tok, j): the j-th key visited
+		return SVal{V: App("mapkeyat", SStr, ev.term(e.Args[0]), ev.term(e.Args[1])), T: strT}
+	case "isIterOrder": // isIterOrder(tok, m): tok enumerates exactly the keys present in m, each once
+		m, ok := ev.rvalue(ev.eval(e.Args[1])).(*Term)
+		if !ok {
+			ev.fail("isIterOrder(tok, map)")
+		}
+		return SVal{V: iterOrderTerm(ev.term(e.Args[0]), m, ev.cur.heapGet("M:has")), T: boolT}
 	case "errmsg":
 		v := ev.rvalue(ev.eval(e.Args[0])).(IfaceV)
 		return SVal{V: App("errmsg", SStr, v.Val), T: strT}
